@@ -29,7 +29,10 @@ def coord(draw, lim=6.0, wide=False):
         e = draw(st.floats(-2.0, 2.0))
         s = draw(st.sampled_from([-1.0, 1.0]))
         return float(s * 10.0 ** e)
-    return draw(st.floats(-lim, lim, allow_nan=False, allow_infinity=False))
+    v = draw(st.floats(-lim, lim, allow_nan=False, allow_infinity=False))
+    # magnitudes below the generator's stated range collapse to zero (the
+    # range bound is a conditioning bound for sign oracles, DESIGN 3.2)
+    return 0.0 if abs(v) < 1e-3 else float(v)
 
 
 @st.composite
